@@ -34,6 +34,16 @@ CLAIMED = {
             "contract-based deductive verification (search-loop invariants + SMT)", "6/C36"),
 }
 
+CLAIMED["C14"] = (
+    "Proof that shouldClean recognises exactly whole cache entries (key-shaped name + suffix, directory iff uncompressed), that markDir "
+    "marks path and path+'=' and never unmarks anything, that isMarked reports membership, and — through call-site obligations inside the real "
+    "clean() with the directory walk modelled by an iteration contract — that every os.Rename/RemoveAll issued by the eviction loop targets a "
+    "whole entry that is unmarked at that moment (rename to <entry>=, remove only that). Kernel-only: the low-water-mark bound (size accounting) "
+    "is not proved.",
+    COMMON_NOTE + "fs.Walk is an assumed iteration contract (arbitrary finite entry sequence under the root); os.Rename/RemoveAll/Stat are opaque; "
+    "the mutex makes markDir/isMarked atomic (assumed).",
+    "contract-based deductive verification (call-site obligations + walk iteration contract + SMT)", "6/C14")
+
 NOT_APPLICABLE = {
     "C05": "liveness / whole-run exit status under all schedules: no per-call contract expresses it (safety fragment is under C04)",
     "C30": "OS process groups, signals and wall-clock bounds; goroutines and select are outside the sequential contract model",
